@@ -364,7 +364,7 @@ class E2Check:
         k1 = len([1 for ident, _ in pipe["accept"] if "+" not in ident])
         rule = (f"programs = the realistic corpus (specs/realistic, 7 files) + enumerated single-struct specs over "
                 f"{len(G.TEMPLATES)} instruction templates x {len(G.POSITIONS)} positions: all sequences of length 1"
-                + (f" and a seed-{self.seed} sample of 500 of length 2" if self.tier == "quick"
+                + (f" and a seed-{self.seed} sample of 1000 of length 2" if self.tier == "quick"
                    else " and 2, and a seeded sample of 1500 of length 3")
                 + "; a program counts when xmlsem finds it well-formed and non-degenerate and the generator accepts it; "
                   "per program every emitted class is verified for all values")
